@@ -109,12 +109,14 @@ def run(keypool):
             cert = keypool.ref_cert('ed25519-2', subkeys=((enc_kid, 0x0C),), secret=False)
             h.run(['--import'], cert)
             fpr = keypool.ref_public(enc_kid).fingerprint.hex().upper()
-            rc, out, err = h.run(['--encrypt', '-r', fpr + '!', '-o', '-'], b'gpg public-key encryption')
-            if rc != 0:
-                continue        # gpg policy may refuse small keys; not a disagreement
-            res = renc.decrypt_message(out, seckeys=[keypool.ref_secret(enc_kid)])
-            inner = grammar.parse_message(res['plaintext'])
-            if inner.literal.data != b'gpg public-key encryption':
-                raise GpgDisagrees('the reference mis-decrypts a gpg-made message to %s' % enc_kid)
-            n += 1
+            # default cipher (AES-256 by the certificate's preferences) and AES-128, for which GnuPG pads the session key to 40 octets
+            for extra in ([], ['--cipher-algo', 'AES']):
+                rc, out, err = h.run(extra + ['--encrypt', '-r', fpr + '!', '-o', '-'], b'gpg public-key encryption')
+                if rc != 0:
+                    continue        # gpg policy may refuse small keys; not a disagreement
+                res = renc.decrypt_message(out, seckeys=[keypool.ref_secret(enc_kid)])
+                inner = grammar.parse_message(res['plaintext'])
+                if inner.literal.data != b'gpg public-key encryption':
+                    raise GpgDisagrees('the reference mis-decrypts a gpg-made message to %s' % enc_kid)
+                n += 1
     return n
